@@ -25,6 +25,14 @@ pub struct Scenario {
 pub struct C02;
 
 pub fn execute_scenario(sc: &Scenario, class_prefix: &str) -> Outcome {
+    execute_scenario_with(sc, class_prefix, None)
+}
+
+/// `advert_class`: also demand that whenever a request group changes what a keyspace holds (a
+/// live entry or a tombstone appears or changes; tombstones merely disappearing is a purge and does
+/// not count), the change timestamp the node advertises for that keyspace moves too - peers skip
+/// a keyspace whose advertised timestamp they have already synced.
+pub fn execute_scenario_with(sc: &Scenario, class_prefix: &str, advert_class: Option<&str>) -> Outcome {
     let mut out = Outcome::default();
     let rt = new_runtime();
     let wall = VirtualWall::install(sc.base_ms);
@@ -45,6 +53,15 @@ pub fn execute_scenario(sc: &Scenario, class_prefix: &str) -> Outcome {
                 if !named.contains(&r.ks) {
                     let _ = node.group.get_or_create_keyspace(&r.ks).await;
                     named.insert(r.ks.clone());
+                }
+            }
+            let mut before: std::collections::BTreeMap<String, (crate::e1::Listing, Option<datacake_crdt::HLCTimestamp>)> = Default::default();
+            if advert_class.is_some() {
+                let info = node.group.get_keyspace_info().await;
+                for ks in &named {
+                    if let Ok(l) = node.set_of(ks).await {
+                        before.insert(ks.clone(), (l, info.keyspace_timestamps.get(ks).copied()));
+                    }
                 }
             }
             let local = tokio::task::LocalSet::new();
@@ -73,6 +90,29 @@ pub fn execute_scenario(sc: &Scenario, class_prefix: &str) -> Outcome {
                         sig.u64(gi as u64).u64(ri as u64).u64(acked as u64);
                     },
                     Err(e) => return Err(e),
+                }
+            }
+            if let Some(class) = advert_class {
+                let info = node.group.get_keyspace_info().await;
+                for ks in &named {
+                    let Some((l0, t0)) = before.get(ks) else { continue };
+                    let Ok(l1) = node.set_of(ks).await else { continue };
+                    let live_changed = l0.0 != l1.0;
+                    let tomb_gained = l1.1.iter().any(|x| !l0.1.contains(x));
+                    if (live_changed || tomb_gained) && info.keyspace_timestamps.get(ks).copied() == *t0 {
+                        out.violate(
+                            class.to_string(),
+                            format!(
+                                "request group {gi} ({}) changed keyspace {ks} from {} / {} to {} / {} but the advertised change timestamp stayed {:?}",
+                                group.iter().map(|r| r.kind.clone()).collect::<Vec<_>>().join("+"),
+                                crate::e1::fmt_list(&l0.0),
+                                crate::e1::fmt_list(&l0.1),
+                                crate::e1::fmt_list(&l1.0),
+                                crate::e1::fmt_list(&l1.1),
+                                t0.map(crate::e1::fmt_ts)
+                            ),
+                        );
+                    }
                 }
             }
             let fp = check_agreement(&node, &named, &format!("after request group {gi}"), class_prefix, &mut out).await;
